@@ -201,6 +201,15 @@ def reasonableRF {W : Type} (A : WArith W) (m : Msa) (wgt : List W) : Option Byt
     some <| (List.range m.alen).map fun apos =>
       rfColumn A isRes isGapLike (((m.rows.take m.nseq).map (fun r => r.getD apos 0)).zip wgt)
 
+/-! ## esl_msa_AppendGC -/
+
+/-- `esl_msa_AppendGC(msa, tag, value)`: a new tag gets a new line at the end; an existing tag (keyhash lookup) has the
+    value appended to its line (`esl_strcat`) -/
+def appendGC (tbl : List (Bytes × Bytes)) (tag v : Bytes) : List (Bytes × Bytes) :=
+  match tbl.findIdx? (fun t => t.1 == tag) with
+  | some t => tbl.modify t (fun (tg, old) => (tg, old ++ v))
+  | none => tbl ++ [(tag, v)]
+
 /-! ## esl_sq.c: conversions of a sequence object (as obtained from `esl_sq_FetchFromMSA`) -/
 
 /-- an `ESL_SQ`: `abc = some a` is digital mode (`dsq[1..n]`, `ss`/`xr` indexed 1..n), `none` text mode -/
